@@ -92,3 +92,39 @@ func vh_C18_L3_short_buffer() {
 	vobserve("nfrag", uint64(nfrag))
 	vcover("end")
 }
+
+// C11.L4: entry limits. With a descriptor limit configured, a chunk that would exceed it
+// is not stored, the counter is unchanged and the association answers with a
+// protocol-violation ABORT; below the limit nothing is refused.
+func vh_C11_L4_entry_limit_abort() {
+	il := vPick(2) == 1
+	limit := uint32(1 + vPick(2))
+	a, _ := vNewAssocOpts(vAssocOpts{interleaving: il, maxEntries: limit})
+	cum := a.peerLastTSN()
+	unordered := vPick(2) == 1
+	// limit+1 incomplete single fragments of distinct messages
+	for i := uint32(0); i <= limit; i++ {
+		c := vDataChunk(a, cum+2+2*i, 4, unordered, 3)
+		c.endingFragment = false
+		c.streamSequenceNumber = uint16(i)
+		c.messageIdentifier = i
+		before := 0
+		if s := a.streams[4]; s != nil {
+			before = s.getNumBytesInReassemblyQueue()
+		}
+		vassert(vDeliver(a, c) == nil, "DATA is never fatal")
+		s := a.streams[4]
+		vassert(s != nil, "stream exists")
+		if i < limit {
+			vassert(!a.willSendAbort, "below the limit nothing is refused")
+			vassert(s.getNumBytesInReassemblyQueue() == before+3, "accepted fragment is counted")
+		} else {
+			vassert(a.willSendAbort, "exceeding the entry limit is answered with ABORT")
+			_, isPV := a.willSendAbortCause.(*errorCauseProtocolViolation)
+			vassert(isPV, "the cause is a protocol violation")
+			vassert(s.getNumBytesInReassemblyQueue() == before, "the refused chunk is not stored and not counted")
+		}
+	}
+	vassert(a.getMyReceiverWindowCredit() == a.maxReceiveBufferSize-3*limit, "advertised credit reflects exactly the stored fragments")
+	vcover("end")
+}
